@@ -15,6 +15,12 @@
 // checks/C02.py for the static assertions of stream c02.probe (the probe declarations must be
 // accepted, the tightened ones rejected) - far faster than spawning `elk` per program.
 //
+// Mode "types" (-extra types): stream c02.cls. Reads "id \t source" lines (escaped as above), parses the
+// source, runs the REAL checker on the AST (checker.CheckAST) and then walks the typed AST: prints
+// "id \t - \t ok|<line>:<name>:<type>|..." with the checker's static type of every occurrence of a local
+// named v<digits> (types as s-expressions over class NAMES: nil never any (c Name) (x Name) (or a b)
+// (and a b) (not a); anything else is (unknown ...)), or "reject:<line>:<message>".
+//
 // Type s-expressions:  Int Float String bool Bool nil any never true false
 //
 //	(i <int>) (f <mantissa> <exp>)  = mantissa / 2^exp   (s <letters>)   (opt t)   (or a b)
@@ -30,7 +36,10 @@ import (
 	"verifharness/hx"
 
 	"github.com/elk-language/elk/bitfield"
+	"github.com/elk-language/elk/parser"
+	"github.com/elk-language/elk/parser/ast"
 	"github.com/elk-language/elk/position/diagnostic"
+	"github.com/elk-language/elk/types"
 	"github.com/elk-language/elk/types/checker"
 )
 
@@ -319,6 +328,91 @@ func runSubBatch(inputs []string) []string {
 	return res
 }
 
+// the checker's type as an s-expression of the class fragment (Model/C02_Classes.v)
+func tySx(t types.Type) string {
+	fold := func(op string, els []types.Type) string {
+		if len(els) == 0 {
+			return "never"
+		}
+		acc := tySx(els[len(els)-1])
+		for i := len(els) - 2; i >= 0; i-- {
+			acc = "(" + op + " " + tySx(els[i]) + " " + acc + ")"
+		}
+		return acc
+	}
+	switch n := t.(type) {
+	case *types.NamedType:
+		return tySx(n.Type)
+	case types.Nil:
+		return "nil"
+	case types.Never:
+		return "never"
+	case types.Any:
+		return "any"
+	case *types.Class:
+		return "(c " + n.Name() + ")"
+	case *types.Exact:
+		if cl, ok := n.Type.(*types.Class); ok {
+			return "(x " + cl.Name() + ")"
+		}
+	case *types.Union:
+		return fold("or", n.Elements)
+	case *types.Intersection:
+		return fold("and", n.Elements)
+	case *types.Not:
+		return "(not " + tySx(n.Type) + ")"
+	case *types.Nilable:
+		return "(or " + tySx(n.Type) + " nil)"
+	}
+	r := strings.NewReplacer(" ", "_", "(", "[", ")", "]", "\t", "_", "|", "/", ":", ";")
+	return "(unknown " + r.Replace(types.Inspect(t)) + ")"
+}
+
+func isProbeLocal(name string) bool {
+	if len(name) < 2 || name[0] != 'v' {
+		return false
+	}
+	for _, ch := range name[1:] {
+		if ch < '0' || ch > '9' {
+			return false
+		}
+	}
+	return true
+}
+
+// static types of all occurrences of locals v<k> in an accepted program
+func typesOf(src string) string {
+	return hx.Guard(func() string {
+		prog, perr := parser.Parse("<c02>", src)
+		if perr != nil {
+			return "reject:0:parse " + strings.ReplaceAll(strings.ReplaceAll(perr.Error(), "\t", " "), "\n", " ")
+		}
+		_, dl := checker.CheckAST("<c02>", prog, nil, bitfield.BitField16{}, nil)
+		for _, d := range dl {
+			if d.Severity == diagnostic.FAIL {
+				ln := 0
+				if d.Location != nil && d.Location.StartPos != nil {
+					ln = d.Location.StartPos.Line
+				}
+				return fmt.Sprintf("reject:%d:%s", ln, strings.ReplaceAll(strings.ReplaceAll(d.Message, "\t", " "), "\n", " "))
+			}
+		}
+		var b strings.Builder
+		b.WriteString("ok")
+		ast.Traverse(prog, func(n, p ast.Node) ast.TraverseOption {
+			if id, ok := n.(*ast.PublicIdentifierNode); ok && isProbeLocal(id.Value) {
+				t := id.Type(nil)
+				if t == nil || types.IsVoid(t) || id.Location() == nil || id.Location().StartPos == nil {
+					return ast.TraverseContinue
+				}
+				fmt.Fprintf(&b, "|%d:%s:%s", id.Location().StartPos.Line, id.Value, tySx(t))
+			}
+			return ast.TraverseContinue
+		}, nil)
+		return b.String()
+	})
+}
+
 func unescape(s string) string {
 	var b strings.Builder
 	for i := 0; i < len(s); i++ {
@@ -417,6 +511,18 @@ func main() {
 			}
 		}
 		flush()
+		return
+	}
+	if o.Extra == "types" {
+		sc := bufio.NewScanner(os.Stdin)
+		sc.Buffer(make([]byte, 1<<20), 1<<26)
+		for sc.Scan() {
+			parts := strings.SplitN(sc.Text(), "\t", 2)
+			if len(parts) != 2 {
+				continue
+			}
+			hx.Emit(parts[0], "-", typesOf(unescape(parts[1])))
+		}
 		return
 	}
 	if o.Extra == "check" {
